@@ -173,7 +173,7 @@ var baseGoroutines int
 
 // Yield natively: give every other goroutine ample time to run until it blocks (the interpreter does
 // this exactly; natively a generous pause stands in for it).
-func Yield() { runtime.Gosched(); time.Sleep(150 * time.Millisecond) }
+func Yield()           { runtime.Gosched(); time.Sleep(150 * time.Millisecond) }
 func AllocLimit(n int) {}
 func SameBacking(a, b []byte) bool {
 	if cap(a) == 0 || cap(b) == 0 {
